@@ -137,7 +137,9 @@ class EqualsPredicate:
         if isinstance(inner_value, KnownValue):
             op = _OPERATOR[(positive, self.use_is)]
             try:
-                result = op(inner_value.val, self.pattern_val)
+                # bool() inside the guard: a rich comparison result may not
+                # have a truth value
+                result = bool(op(inner_value.val, self.pattern_val))
             except Exception:
                 pass
             else:
